@@ -81,4 +81,17 @@ def observe(xform: str, itemsets) -> dict:
     grid = None
     if itemsets is not None:
         grid = [list(r) for r in csv.reader(io.StringIO(itemsets, newline=""))]
-    return {"instances": instances, "selects": selects, "csv": grid, "csv_text": itemsets}
+    # every instance('…') the converter itself writes must be declared: the last-saved instance wherever it is read
+    # (any attribute value or text of the document), and the instance an itemset reads from
+    reads = []
+    for el in root.iter():
+        vals = list(el.attrib.values()) + [el.text or ""]
+        if any("instance('__last-saved')" in v for v in vals):
+            reads.append("__last-saved")
+            break
+    for s_ in selects:
+        ns = (s_["itemset"] or {}).get("nodeset") or ""
+        i = ns.find("instance('")
+        if i >= 0 and (ns.startswith("instance('") or ns.startswith("randomize(instance('")):
+            reads.append(ns[i + 10: ns.find("'", i + 10)])
+    return {"instances": instances, "selects": selects, "csv": grid, "csv_text": itemsets, "reads": reads}
